@@ -95,7 +95,14 @@ func TestC03_Payload(t *testing.T) {
 						hostile = false
 					}
 				} else {
+					arts.MachOTightHeaders = true
 					a = arts.Gen(t, format)
+					for _, c := range a.Classes {
+						if c == "tight-header" {
+							// no room for the signature's load command: refusing is the only safe outcome
+							hostile = true
+						}
+					}
 				}
 				key := rapid.SampledFrom(pipe.SigningKeys).Draw(t, "key")
 				if arts.PgpFormats[format] {
